@@ -168,7 +168,7 @@ def generate_composite_keys(
                         transform_i = xpath_match(fullxpath, attributes_to_transform)
                         if transform_i:
                             transform_i -= 1
-                            tranformed = transform[transform_i][1](line[key])
+                            tranformed = str(transform[transform_i][1](line[key]))
                         else:
                             tranformed = str(line[key])
                         created_composite_key += key + "=" + tranformed
